@@ -118,7 +118,7 @@ static Level fam_brackets(int maxk) {
 int main(int argc, char **argv) {
   drv::Args args = drv::Args::parse(argc, argv); bool T = args.thorough();
   if (args.prop != "C13") { fprintf(stderr, "ERROR: unknown property\n"); return 2; }
-  if (args.part == "large") { g_maxlen = T ? 5 : 4; std::vector<Level> LL = {fam_brackets(T ? 8 : 6)}; return drv::run<Case>(args, LL, oracle_C13, {}, 120); }
+  if (args.part == "large") { g_maxlen = T ? 4 : 3; std::vector<Level> LL = {fam_brackets(T ? 10 : 8)}; return drv::run<Case>(args, LL, oracle_C13, {}, 300); }
   std::vector<Level> L = {fam_grammars(2, 2), fam_chains(false), fam_grammars(3, 2)};
   if (T) { g_maxlen = 5; L.push_back(fam_grammars(4, 2)); L.push_back(fam_chains(true)); L.push_back(fam_grammars(3, 3)); }
   return drv::run<Case>(args, L, oracle_C13, {}, 10);
